@@ -301,8 +301,20 @@ def run_exec(params, prefix, expect):
   world.set_chooser(ch)
   trace = []
   steps = 0
+  lp = vloop.loop()
+  preempts_left = params.get('max_preempt', 0)
   try:
     while steps < 200:
+      while preempts_left > 0 and not lp.quiescent():
+        # between two ready callbacks a request's deadline may fire (what ClientTimeoutSink does from its own greenlet)
+        cands = [r for r in w.reqs if r['deadline'] and not r['timed_out'] and not w.term.responses.get(r['name'])]
+        if cands:
+          i = ch.choose(['next-callback'] + ['preempt: deadline-fires %s' % r['name'] for r in cands], 'preempt')
+          if i > 0:
+            preempts_left -= 1
+            trace.append('PREEMPT deadline-fires %s before %d pending callbacks' % (cands[i - 1]['name'], len(lp._ready)))
+            w._timeout(cands[i - 1])
+        vloop.run_ready(budget=1)
       vloop.run_ready()
       w.at_quiescence()
       alts = w.alternatives()
@@ -334,6 +346,8 @@ def scenarios(tier):
     ('requests issued while opening', {'ops': [['req', 'a', True], ['req', 'b']], 'max_adversarial': 1, 'early': True}),
     ('connection reset and fresh transport', {'ops': [['req', 'a'], ['req', 'b', True], ['req', 'c']], 'max_adversarial': 1, 'reset': True}),
   ]
+  out.append(('3 requests, a deadline may fire between two ready callbacks',
+              {'ops': [['req', 'a', True], ['req', 'b', True], ['req', 'c']], 'max_adversarial': 1, 'max_preempt': 1, '_bound': 2}))
   if tier == 'thorough':
     out.append(('5 requests', {'ops': [['req', 'a', True], ['req', 'b'], ['req', 'c', True], ['req', 'd'], ['req', 'e']], 'max_adversarial': 2}))
   return out
@@ -348,8 +362,10 @@ def main(tier, seed):
     rep.add_bfs('TagPool(max_tag=7) get/release histories', res, depth, params={'max_tag': 7}, replay_base={'tagpool': True})
     bound = 3 if tier == 'quick' else 4
     for name, params in scenarios(tier):
-      agg = explore.explore('vt.checks.c11', 'run_exec', params, bound, seed=seed, pool=pool, split_levels=1 if bound <= 2 else 2)
-      rep.add_explore('mux transport: ' + name, agg, bound, params=params)
+      own = '_bound' in params
+      b = params.pop('_bound', bound) + (1 if tier == 'thorough' and own else 0)
+      agg = explore.explore('vt.checks.c11', 'run_exec', params, b, seed=seed, pool=pool, split_levels=1 if b <= 2 else 2)
+      rep.add_explore('mux transport: ' + name, agg, b, params=params)
   finally:
     pool.close()
     pool.join()
